@@ -12,7 +12,7 @@ C = qtyping.OpQuantizationConfig
 
 REGEXES = ['.*', 'a/', 'a/b;', '^c']
 SELS = ['*', 'FULLY_CONNECTED', 'TANH']
-CFG_NAMES = ['srq8a_cw', 'drq8_cw', 'wo4s_cw', 'bad_drq16', 'fp16', 'noq']
+CFG_NAMES = ['srq8a_cw', 'drq8_cw', 'wo4s_cw', 'bad_drq8_explicit', 'fp16', 'noq']   # the unsupported letter is ONE FIELD away from a supported one
 ALPHABET = [(rx, op, c) for rx in REGEXES for op in SELS for c in CFG_NAMES]
 SCOPES = ['a/b;', 'a/c;', 'c;', 'x/a/b;d;']
 QOPS = ['FULLY_CONNECTED', 'TANH', 'CONV_2D', 'EMBEDDING_LOOKUP']
@@ -29,7 +29,7 @@ RULE = ('exhaustive: every history of add operations up to length L (L=2 quick, 
         '(13 regexes x all 25 selectors x all catalogue configs) including load operations, queried at 9 operators x 8 '
         'scopes.  Every query is issued twice, in two orders, and on a manager re-created from the exported recipe.  '
         'distinct by the history itself; non-trivial iff at least one query resolves to a quantizing rule')
-ASSUMPTIONS = ["the library's registered support check is a parameter of the statement and is taken as given",
+ASSUMPTIONS = ["the support check of the statement is read independently from the declared JSON policy (the library's own check_op_quantization_config is what is being observed; C13 compares the two over the whole lattice)",
                'load lists are built from rules that are individually acceptable (failed-load semantics is not part of the statement)']
 
 
@@ -68,7 +68,7 @@ def entry_json(rx, sel, name):
 
 def run_history(ctx, hist, qops, scopes, rng=None):
   rm = recipe_manager.RecipeManager()
-  ref = resolve.RefRecipe(recipes.library_supported)
+  ref = resolve.RefRecipe(recipes.declared_supported)   # read from the declared JSON policy (vf/oracle/policy.py), never the library's own check
   for step in hist:
     if step[0] == 'add':
       _, rx, sel, name = step
@@ -162,7 +162,7 @@ def run_case(ctx, case, rng):
         for _ in range(int(rng.integers(1, 4))):
           e = (str(rng.choice(WIDE_REGEXES)), str(rng.choice(WIDE_SELS)), str(rng.choice(cfg_names)))
           alg, cfg = recipes.CFGS[e[2]]
-          if e[1] == '*' or alg == 'no_quantize' or recipes.library_supported(alg, e[1], cfg):
+          if e[1] == '*' or alg == 'no_quantize' or recipes.declared_supported(alg, e[1], cfg):
             ent.append(e)
         hist.append(('load', ent))
       else:
